@@ -1384,14 +1384,15 @@ class Engine:
         if name == 'graph_at_entry':
             if self.pre_env is None or self.pre_env.get('$heap') is None:
                 raise Unsupported('graph_at_entry outside heap mode')
-            return V(('dict', T_NAME, T_BLOCK), Select(self.pre_env['$heap'].t, E(0).t))
+            h0 = path.env.get('$heap0') or self.pre_env['$heap']       # inside a callee's contract: the heap at the call
+            return V(('dict', T_NAME, T_BLOCK), Select(h0.t, E(0).t))
         if name == 'same_value':
             # equality of two values as SMT terms (implies ==; lets congruence identify function applications over them)
             return S.vbool(E(0).t == E(1).t)
         if name == 'graph_now':
             return V(('dict', T_NAME, T_BLOCK), Select(path.env['$heap'].t, E(0).t))
         if name == 'heap_unchanged':
-            return S.vbool(path.env['$heap'].t == self.pre_env['$heap'].t)
+            return S.vbool(path.env['$heap'].t == (path.env.get('$heap0') or self.pre_env['$heap']).t)
         if name == 'nesting_wf':
             # the nesting of sub-graphs is well founded: a region block stored in sub-graph s has a sub-graph of greater depth
             h = path.env['$heap']
@@ -2117,6 +2118,10 @@ class Engine:
             self.assumptions_used.add('call of the heap-mode function %s from a value-mode caller: no effect at the caller\'s level; '
                                       'its heap preconditions are not checked at this call (hierarchy clause: run-time contracts)' % qual.split(':')[1])
             return NONE
+        if c.heap:
+            # heap-mode callee: its contract reads the heap of the call (`graph_at_entry` = the heap at the call)
+            vals['$heap'] = path.env['$heap']
+            vals['$heap0'] = path.env['$heap']
         # ---- inline definitions
         if c.inline is not None:
             sub = Evaluator(self, cm)
@@ -2207,6 +2212,9 @@ class Engine:
         for loc in c.modifies:
             root = loc.split('.')[0]
             newv = env[root]
+            if root == '$heap':
+                path.env['$heap'] = newv
+                continue
             if root == list(c.params)[0] and self_val is not None:
                 tgt = self_node
             else:
@@ -2809,8 +2817,26 @@ class Engine:
         # iterated collection must not be modified by the body (termination + snapshot semantics)
         it_roots = {n.id for n in ast.walk(it_node) if isinstance(n, ast.Name)}
         snapshot = isinstance(it_node, ast.Call) and isinstance(it_node.func, ast.Name) and it_node.func.id in ('sorted', 'list', 'tuple')
+        inplace = None
         if it_roots & names and not snapshot:      # sorted(...)/list(...)/tuple(...) build a new object before the loop starts
-            raise Unsupported('loop body modifies the iterated collection')
+            # allowed: `for i, x in enumerate(L)` whose body only stores elements `L[e] = v` (the length cannot change; the
+            # element of iteration i is read from the current list)
+            ok_ = (mode == 'index' and isinstance(it_node, ast.Call) and it_node.func.id == 'enumerate' and isinstance(it_node.args[0], ast.Name))
+            if ok_:
+                ln = it_node.args[0].id
+                for n_ in ast.walk(ast.Module(body=st.body, type_ignores=[])):
+                    if isinstance(n_, ast.Call) and isinstance(n_.func, ast.Attribute) and isinstance(n_.func.value, ast.Name) \
+                            and n_.func.value.id == ln and n_.func.attr in MUTATING_METHODS:
+                        ok_ = False
+                    if isinstance(n_, (ast.Assign, ast.AugAssign)):
+                        for t_ in (n_.targets if isinstance(n_, ast.Assign) else [n_.target]):
+                            if isinstance(t_, ast.Name) and t_.id == ln:
+                                ok_ = False
+                    if isinstance(n_, ast.Delete):
+                        ok_ = False
+            if not ok_:
+                raise Unsupported('loop body modifies the iterated collection')
+            inplace = ln
         # ---- inv-init
         g0 = IntVal(0) if mode == 'index' else S.set_empty(qt).t
         gname = spec.index if mode == 'index' else spec.done
@@ -2840,7 +2866,13 @@ class Engine:
             envh[seen_name] = seen_h
         self.assume_inv(spec, envh, p)
         self.assume_lemmas(spec, envh, p)
-        p.env.update(bind(q))
+        if inplace is not None:
+            cur_ = p.env[inplace]
+            p.assume(S.seq_n(cur_) == n_it)          # element stores keep the length (checked again at the end of the body)
+            a_, b_ = st.target.elts
+            p.env.update({a_.id: V(T_INT, q), b_.id: S.seq_get(cur_, q)})
+        else:
+            p.env.update(bind(q))
         p.env[gname] = V(gty, g)
         if seen_ghost:
             p.env[seen_name] = seen_h
@@ -2851,6 +2883,8 @@ class Engine:
                 env2[gname] = V(gty, g + 1 if mode == 'index' else Store(g, q, True))
                 if seen_ghost:
                     env2[seen_name] = V(seen_h.ty, Store(seen_h.t, Select(S.seq_arr(seen_seq), g), True))
+                if inplace is not None:
+                    self.add_obligation(p2, 'inv-step', '%s:length-kept' % key, S.seq_n(p2.env[inplace]) == n_it)
                 self.check_inv(spec, key, env2, p2, 'inv-step')
             elif o == 'break':
                 results.append((p2, None))
@@ -2861,6 +2895,8 @@ class Engine:
         self.havoc(p3, names, locs)
         env3 = base_env(p3)
         env3[gname] = V(gty, n_it if mode == 'index' else whole.t)
+        if inplace is not None:
+            p3.assume(S.seq_n(p3.env[inplace]) == n_it)
         if seen_ghost:
             env3[seen_name] = seen_at(n_it, p3)
         self.assume_inv(spec, env3, p3)
